@@ -26,12 +26,12 @@ theorem fallback_spec (fuel pos : Nat) (k : FbKind) (h : List Cond) (inner : Lay
       | none => none
       | some (res, r1) =>
         if isFailure h res.outcome then
-          if r1.isCanc then some (r1.cancelRes, r1.emit "fb.onFailure" pos)
+          if r1.isCanc then some (r1.cancelRes, r1.emitSeen "fb.onFailure" pos (r1.seenBy res.outcome))
           else
             let ok := !isFailure h (fbOutcome k)
             some (⟨(fbOutcome k).val, (fbOutcome k).err, true, ok, ok⟩,
-                  ((r1.emit "fb.onFailure" pos).emitSeen "fb.fn" pos res.outcome).emit "fb.onFallbackExecuted" pos)
-        else some (res.withDone true true, r1.emit "fb.onSuccess" pos) := by
+                  ((r1.emitSeen "fb.onFailure" pos (r1.seenBy res.outcome)).emitSeen "fb.fn" pos res.outcome).emit "fb.onFallbackExecuted" pos)
+        else some (res.withDone true true, r1.emitSeen "fb.onSuccess" pos (r1.seenBy res.outcome)) := by
   simp only [applyPolicy]
   cases hi : inner r with
   | none => rfl
@@ -40,8 +40,8 @@ theorem fallback_spec (fuel pos : Nat) (k : FbKind) (h : List Cond) (inner : Lay
     simp only
     by_cases hf : isFailure h res.outcome = true
     · simp only [hf, if_true]
-      have hc : (r1.emit "fb.onFailure" pos).isCanc = r1.isCanc := rfl
-      have hc2 : (r1.emit "fb.onFailure" pos).cancelRes = r1.cancelRes := rfl
+      have hc : (r1.emitSeen "fb.onFailure" pos (r1.seenBy res.outcome)).isCanc = r1.isCanc := rfl
+      have hc2 : (r1.emitSeen "fb.onFailure" pos (r1.seenBy res.outcome)).cancelRes = r1.cancelRes := rfl
       rw [hc, hc2]
       by_cases hcan : r1.isCanc = true
       · simp [hcan]
@@ -93,7 +93,7 @@ theorem no_fallback_output_under_cancel (fuel pos : Nat) (k : FbKind) (h : List 
     (res : PR) (r1 : Run) (hi : inner r = some (res, r1)) (hf : isFailure h res.outcome = true) (hc : r1.isCanc = true) :
     ∃ r', applyPolicy fuel pos (.fallback k h) inner r = some (r1.cancelRes, r') ∧ applications pos r'.log = applications pos r1.log := by
   rw [fallback_spec, hi]
-  simp [hf, hc, applications, Run.emit, List.filter_append]
+  simp [hf, hc, applications, Run.emit, Run.emitSeen, List.filter_append]
 
 /-- **the fallback function sees the failed result and error as the execution's last result**: the event of the fallback
 function carries exactly the inner layer's outcome (including `ExceededError`, `ErrOpen`, `ErrFull`, rate-limit and timeout errors) -/
